@@ -7,7 +7,7 @@ use core::str::FromStr;
 #[cfg(feature = "std")]
 use std::error::Error;
 
-use bech32::{Bech32, Bech32m, Checksum, Hrp, primitives::decode::CheckedHrpstring};
+use bech32::{Bech32, Bech32m, Checksum, Fe32, Hrp, primitives::decode::CheckedHrpstring};
 use zcash_protocol::consensus::{NetworkConstants, NetworkType};
 use zcash_protocol::constants::{mainnet, regtest, testnet};
 
@@ -85,7 +85,7 @@ impl FromStr for ZcashAddress {
                 }
             };
 
-            let data = parsed.byte_iter().collect::<Vec<_>>();
+            let data = checked_payload(&parsed).ok_or(ParseError::InvalidEncoding)?;
 
             return data
                 .try_into()
@@ -107,7 +107,7 @@ impl FromStr for ZcashAddress {
                 }
             };
 
-            let data = parsed.byte_iter().collect::<Vec<_>>();
+            let data = checked_payload(&parsed).ok_or(ParseError::InvalidEncoding)?;
 
             return data
                 .try_into()
@@ -150,6 +150,29 @@ impl FromStr for ZcashAddress {
         // If it's not valid Bech32, Bech32m, or Base58Check, it's not a Zcash address.
         Err(ParseError::NotZcash)
     }
+}
+
+/// Returns the bytes encoded by the data part of a checksum-validated Bech32 or Bech32m
+/// string, or `None` if its final incomplete group is not valid padding.
+///
+/// The 5-bit groups of the data part are regrouped into bytes. As in [BIP 173], any
+/// incomplete group at the end must be 4 bits or less and must be all zeroes; otherwise
+/// several distinct strings would decode to the same bytes.
+///
+/// [BIP 173]: https://github.com/bitcoin/bips/blob/master/bip-0173.mediawiki#segwit-address-format
+pub(crate) fn checked_payload(parsed: &CheckedHrpstring<'_>) -> Option<Vec<u8>> {
+    let data_part = parsed.data_part_ascii_no_checksum();
+    let padding_bits = (data_part.len() * 5) % 8;
+    if padding_bits >= 5 {
+        return None;
+    }
+    if let Some(last) = data_part.last() {
+        let last = Fe32::from_char(char::from(*last)).ok()?.to_u8();
+        if last & ((1 << padding_bits) - 1) != 0 {
+            return None;
+        }
+    }
+    Some(parsed.byte_iter().collect())
 }
 
 fn encode_bech32<Ck: Checksum>(hrp: &str, data: &[u8]) -> String {
